@@ -76,6 +76,12 @@ CHECKS.update({
             'combinations and near-miss checksums are exercised, the read-only directory is compared byte for byte, and damaged/colliding '
             'caches are fed to a real connection that must still reach `connected` with the device tables.',
             'Crash model = prefix of the intended file; corruptions that remain valid JSON are out of scope of the statement.'),
+    'C04': ('exploration', 'DESIGN.md 3/C04', 'dsched+simcf',
+            'Hypothesis-generated multi-thread request scripts with type-relative boundary values, device notifications, reply delays and thread schedules under the deterministic scheduler; device transcript + queue-order + per-reply callback + own-reply oracles',
+            'Up to three user threads issue set/read/persistent/default requests against a fully connected simulated device under generated '
+            'schedules; the device transcript decides typing and refusal, the updater queue decides issue order, delivery/transmission times '
+            'decide one-at-a-time, and every reply is traced to the request it answers.',
+            'Reliable link; FP16 excluded; wire-ambiguous default values excluded; each thread owns a disjoint parameter subset for attribution.'),
 })
 
 ALL = ['C%02d' % i for i in range(1, 21)]
